@@ -155,13 +155,18 @@ squaring (the type `F51x4Reduced`) to have limbs in `[0, 2^52)`, everything else
 def anyU64 : List Itv := rep 20 (ub (2 ^ 64 - 1))
 /-- limbs in `[0, 2^52)` (`F51x4Reduced`) -/
 def reduced : List Itv := rep 20 (ub (2 ^ 52 - 1))
-/-- lane-wise `≤` the lanes of `(16p, 16p, 16p, 16p)` (the constants subtracted from in `negate_lazy`) -/
+/-- lane-wise `≤` the lanes of `(32p, 32p, 32p, 32p)` (the constants `2^56 − 608`, `2^56 − 32` subtracted from in
+`negate_lazy` since /repo commit c662d20) -/
+def le32p : List Itv := rep 4 (ub (32 * (2 ^ 51 - 19))) ++ rep 16 (ub (32 * (2 ^ 51 - 1)))
+/-- lane-wise `≤` the lanes of `(16p, 16p, 16p, 16p)`: the constants `negate_lazy` subtracted from BEFORE /repo commit
+c662d20.  Not a contract of any kernel any more; kept to state that unreduced products can exceed it
+(`Dalek.Props.C11.Ifma.mul_output_can_exceed_16p`). -/
 def le16p : List Itv := rep 4 (ub (16 * (2 ^ 51 - 19))) ++ rep 16 (ub (16 * (2 ^ 51 - 1)))
 def pre_new := anyU64
 def pre_split := anyU64
-/-- exact requirement of `16p − x` (no documented bound) -/
-def pre_negate_lazy := le16p
-def pre_diff_sum := le16p
+/-- exact requirement of `32p − x` (no documented bound) -/
+def pre_negate_lazy := le32p
+def pre_diff_sum := le32p
 /-- no documented bound: lane-wise sum must fit a u64; here both operands `< 2^63` -/
 def pre_add := rep 40 (ub (2 ^ 63 - 1))
 def pre_reduce := anyU64
